@@ -44,7 +44,7 @@ impl Check for C12 {
         "C12"
     }
     fn rule(&self) -> String {
-        "(hash, secondary hash, n) triples: boundary constants, pre-images of shard boundaries under the documented mixers (solved through the modular inverse of the odd multiplier), pairs whose primary and secondary images coincide (fix-up incl. the wrap n-1 -> 0), and uniform values; n in 0..70 and {128,255,256,257,4096,65537}. Per triple: a lookup on an empty sharded directory by a fresh process (probe paths and order from the call trace), then put+set by process A whose load estimates were skewed by unrelated writes so that the entry may land in the secondary shard, then lookups by fresh processes B and C through sharded::Cache, Cache and ReadOnlyCache. Oracle: independent reimplementation with literal mixer constants. Non-trivial = primary and secondary images collided, or a boundary pre-image was used, or the entry landed in the secondary shard; distinct = hash of (n, shard pair, class of hash, where it landed, reader kinds)".to_string()
+        "(hash, secondary hash, n) triples: boundary constants, pre-images of shard boundaries under the documented mixers (solved through the modular inverse of the odd multiplier), pairs whose primary and secondary images coincide (fix-up incl. the wrap n-1 -> 0), and uniform values; n in 0..70 and {128,255,256,257,4096,65537}. Per triple: a lookup on an empty sharded directory by a fresh process (probe paths and order from the call trace), then put+set by process A whose load estimates were skewed by unrelated writes so that the entry may land in the secondary shard, then lookups by fresh processes B and C through sharded::Cache, Cache and ReadOnlyCache; every handle is opened with its own capacity argument (from below the shard count to 10^6). Oracle: independent reimplementation with literal mixer constants. Non-trivial = primary and secondary images collided, or a boundary pre-image was used, or the entry landed in the secondary shard; distinct = hash of (n, shard pair, class of hash, where it landed, reader kinds)".to_string()
     }
     fn runs(&self, tier: Tier) -> u64 {
         match tier {
@@ -74,6 +74,13 @@ impl Check for C12 {
         let mut fs = new_fs(&kn);
         let root = "/sim/c0".to_string();
         fs.mkdir_all(&root);
+        // Each process opens the directory with its own capacity argument --
+        // placement may depend on (hash, secondary hash, n) only.  Tiny
+        // capacities (below the shard count) are included; they are used only
+        // when no unrelated key is written, so that nothing is evicted.
+        let tiny = tape.draw(3) == 0;
+        let cap_of = |t: &mut Tape| -> usize { if tiny { *t.pick(&[1usize, 2, 3, n_eff.saturating_sub(1).max(1), n_eff, 100 * n_eff]) } else { *t.pick(&[100 * n_eff, 50 * n_eff + 7, 1_000_000]) } };
+        let caps: Vec<usize> = (0..4).map(|_| cap_of(tape)).collect();
         let dirs = vec![DirSpec { path: root.clone(), kind: DirKind::Sharded(n), capacity: 100 * n_eff }];
         let mut w = World::new(fs, &kn, tape, 4, 1, dirs.clone(), WorldCfg::default());
         for p in 0..4 {
@@ -92,9 +99,11 @@ impl Check for C12 {
             fail(&mut out, "oracle-bug", format!("reference mapping produced ({}, {}) for n={}", h1, h2, n));
         }
         // (a) fresh process, empty directory: probe paths in order
-        let ha = w.build(&HandleSpec::Sharded(0));
+        let mk = |cap: usize| Handle::Sharded(kismet_cache::sharded::Cache::new(std::path::PathBuf::from(&root), n, cap));
+        let h_fresh = mk(caps[3]);
+        let ha = mk(caps[0]);
         let m0 = w.trace_len();
-        let r = w.op(3, 0, &ha, 0, &key, &Op::Get);
+        let r = w.op(3, 0, &h_fresh, 0, &key, &Op::Get);
         let tr = w.trace_from(m0);
         let opens: Vec<String> = tr.iter().filter(|r| r.kind == K::Open).map(|r| r.raw.clone()).collect();
         if r.out != Ok(Out::Miss) {
@@ -104,7 +113,7 @@ impl Check for C12 {
             fail(&mut out, "probe-paths", format!("n={} hash={:#x} sec={:#x}: expected probes [{}, {}], observed {:?}", n, hash, sec, p1, p2, opens));
         }
         // (b) A writes with skewed estimates
-        let skew = w.draw(3);
+        let skew = if tiny { 0 } else { w.draw(3) };
         let mut unrelated = 0;
         if skew > 0 {
             let target = if skew == 1 { (h1, h2) } else { (h2, h1) };
@@ -142,6 +151,11 @@ impl Check for C12 {
                 if p.is_empty() || !p.starts_with(&root) {
                     continue;
                 }
+                // calls on behalf of the key name it (maintenance of other
+                // shards, which tiny capacities trigger, does not)
+                if !p.ends_with("/thekey") {
+                    continue;
+                }
                 let ok = *p == root || *p == d1 || *p == d2 || p.starts_with(&format!("{}/", d1)) || p.starts_with(&format!("{}/", d2));
                 if !ok {
                     fail(&mut out, "foreign-shard", format!("n={} key shards ({},{}) but the operation touched {}: {}", n, h1, h2, p, rec.short()));
@@ -171,9 +185,9 @@ impl Check for C12 {
                 1 => HandleSpec::Stack { writer: None, readers: vec![0], auto_sync: true, checker: CheckerKind::None },
                 _ => HandleSpec::ReadOnly { readers: vec![0], checker: CheckerKind::None },
             };
-            let h = w.build(&spec);
+            let h = if kind == 0 { mk(caps[p]) } else { w.build(&spec) };
             // B's own estimates are skewed too (only when it can write)
-            if kind == 0 && w.draw(2) == 1 {
+            if kind == 0 && !tiny && w.draw(2) == 1 {
                 let (uh, us) = {
                     let mut st = w.sim.lock();
                     solve_key(&mut st.tape, n_eff, (h1, h2))
@@ -212,7 +226,7 @@ impl Check for C12 {
         out.nontrivial = collided || in_secondary || n < 2;
         out.sig = hash_str(&format!("{}|{}|{}|{}|{:?}|{}|{}", n, h1, h2, collided, landed, kinds, unrelated));
         if ctx.detail || out.violation.is_some() {
-            let desc = format!("n={} hash={:#x} sec={:#x} shards=({},{}) collided={} skew={} landed_put={:?} landed={:?}", n, hash, sec, h1, h2, collided, skew, landed_put, landed);
+            let desc = format!("n={} hash={:#x} sec={:#x} shards=({},{}) collided={} skew={} capacities={:?} landed_put={:?} landed={:?}", n, hash, sec, h1, h2, collided, skew, caps, landed_put, landed);
             if let Some(v) = out.violation.as_mut() {
                 v.detail.push(desc.clone());
                 v.detail.extend(trace_tail(&w.trace_from(0), 60));
